@@ -214,7 +214,7 @@ PREDS = {
             "C18_FileFiltersCover"],
     "C23": ["C23_AtMostOncePerBlock", "C23_AllOrNoneOfAFile", "C23_ReturnedRowsBlockProcessed", "C23_SkippedZero",
             "C23_ProcessedWhole", "C23_Totals", "C23_RowsMatched"],
-    "C24": ["C24_NoOpenOfRuledOutFile", "C24_NoRowReadOfRuledOutBlock", "C24_NoRegionReadWithoutConditions",
+    "C24": ["C24_NoOpenOfRuledOutFile", "C24_NoRowReadOfRuledOutBlock", "C24_NoRowReadOfRuledOutBlockAfterOpenFault", "C24_NoRegionReadWithoutConditions",
             "C24_ReadsInsideDeclaredExtents"],
 }
 DESIGN_THEOREMS = {
